@@ -2,11 +2,12 @@
 import fcntl
 import json
 import os
+import shutil
 import subprocess
 import sys
 import time
 
-VERIF = "/verif"
+VERIF = os.environ.get("CFDP_VERIF_ROOT", "/verif")   # overridden only by bin/seedtest (snapshot runs)
 HARNESS = os.path.join(VERIF, "harness")
 BIN = os.path.join(HARNESS, "target", "debug")
 WORK = os.path.join(VERIF, ".work")
@@ -69,6 +70,7 @@ class Check:
         self.level = level
         self.t0 = time.time()
         self.work = os.path.join(WORK, "%s-%s" % (prop, tier))
+        shutil.rmtree(self.work, ignore_errors=True)       # nothing of an earlier run is reused
         os.makedirs(self.work, exist_ok=True)
         self.coverage = {}
         self.assumptions = []
@@ -119,4 +121,7 @@ class Check:
             print("VIOLATION property=%s replay=%s" % (self.prop, path))
             log("  " + what)
         sys.stdout.flush()
+        if not os.environ.get("CFDP_VERIF_KEEP"):
+            # scratch (scripts, recorded traces, TLC metadirs) is large; replays of violations were copied out above
+            shutil.rmtree(self.work, ignore_errors=True)
         return 1 if self.violations else 0
